@@ -622,6 +622,9 @@ func prop(t *rapid.T) {
 	cfg.Closer = closeCtx || rapid.IntRange(0, 3).Draw(t, "closer") == 0
 	var lib *wasmgen.Module
 	if rapid.IntRange(0, 2).Draw(t, "withlib") == 0 {
+		// two modules, each with its own fuel: half the budget each, so that the combined nesting
+		// stays below the 30-frame cap of the known finding
+		cfg.FuelInit = 16 * 12
 		lcfg := cfg
 		lcfg.HostModule = "env2"
 		lcfg.ModuleName = "lib"
